@@ -1,0 +1,11 @@
+//go:build verif
+
+// Contracts for the acv verifier (/verif). Comment-only file: no executable code.
+
+package common
+
+//@ func TokenValueFromData(data []byte) (v *TokenValue, err error)
+//@   props C10 C14
+//@   safety
+//@   ensures err == nil ==> v != nil
+//@   ensures err != nil ==> v == nil
